@@ -5,7 +5,7 @@
 //! trusted: R15 (deep slice): closing_signed: the unit extracts the whole fee-negotiation statement (fee-range and legacy branches) that follows calculate_closing_fee_limits, verbatim, as a function of (msg, our_min_fee, our_max_fee); the function-local macro propose_fee!(X) (builds, signs and returns the closing transaction with fee X) is replaced by `return Ok(X)`; signature checks and transaction building before it are dropped and not claimed; error strings dropped (R8); assume_specification for u64::div_ceil and core::cmp::min / core::cmp::max (std definitions)
 //! trusted: calculate_closing_fee_limits whole: R5: self skeleton (funding: outbound / value / value_to_self_msat; context: cached limits, target feerate, current feerate, force_close_avoidance_max_fee_satoshis, the peer's shutdown script); the fee estimator answers an uninterpreted est(target); get_closing_transaction_weight answers the skeleton's weight; R8: `opt.clone().unwrap()` on the cached pair -> limits_of
 //! assume: closing transaction weight <= 4e6 WU, force_close_avoidance_max_fee_satoshis < 2^63 (no overflow of the fee sums)
-//! assume: closing_signed negotiation: our_min_fee <= our_max_fee; the fee we sent last lies within our limits; for the non-paying side our_max_fee is the peer's whole balance (calculate_closing_fee_limits)
+//! assume: closing_signed negotiation: our_min_fee <= our_max_fee; the fee we sent last lies within our limits; for the non-paying side our_max_fee is the peer's whole balance (no longer assumed: it is the postcondition of calculate_closing_fee_limits, verified whole in this unit)
 //! assume: no pending HTLCs or fee update (LDK's assert!s); channel value <= 21e14 sat; value_to_self_msat <= channel value; the funder's balance covers the proposed fee (established by the closing-fee negotiation; LDK's own debug_assert!s)
 use vstd::prelude::*;
 verus! {
